@@ -14,6 +14,8 @@
 // generic FieldProps path; PORV, TRAN*, TEMPI, saturation end points and multi-valued
 // (compositional) keywords are excluded.
 #include "common/vh.hpp"
+#include <sys/wait.h>
+#include <unistd.h>
 
 #include <opm/input/eclipse/Parser/Parser.hpp>
 #include <opm/input/eclipse/Parser/ParseContext.hpp>
@@ -2533,6 +2535,27 @@ static void runWitnesses(vh::PropLog& log, std::map<std::string, long>& stats) {
             log.fail("witness.add-temperature", "TEMPI 50 C + ADD 10 gives " + std::to_string((*v)[0]) + " K, expected 333.15 K");
         else log.ok();
         stats["witness.add-temperature"]++;
+    }
+    // (e) TRANZ given as a data keyword in EDIT, then the simulator's PINCH path FieldPropsManager::apply_tranz_global:
+    //     must give what `EQUALS TRANZ` gives (the data keyword's scratch array had no global storage: SIGSEGV, which
+    //     ends this harness with the deck below as the killing input)
+    {
+        auto run = [&](const std::string& edit, std::vector<double>& out) -> bool {
+            const std::string deck = "RUNSPEC\nDIMENS\n 2 1 2 /\nOIL\nWATER\nMETRIC\nGRID\nDX\n 4*1 /\nDY\n 4*1 /\nDZ\n 4*1 /\nTOPS\n 2*1000 /\nPORO\n 4*0.3 /\nEDIT\n" + edit;
+            if (!CURRENT_INPUT.empty()) vh::spit(CURRENT_INPUT, deck);
+            try {
+                Parser p; auto d = p.parseString(deck); EclipseState es(d);
+                out = { 10, 20, 30, 40 };
+                es.fieldProps().apply_tranz_global({ 0, 1, 2, 3 }, out);
+                return true;
+            } catch (const std::exception&) { return false; }
+        };
+        std::vector<double> a, b;
+        const bool ra = run("TRANZ\n 4*5 /\n", a), rb = run("EQUALS\n TRANZ 5 /\n/\n", b);
+        if (!ra || !rb) log.fail("witness.tranz-data-global", std::string("apply_tranz_global throws: data keyword ") + (ra ? "ok" : "throws") + ", EQUALS " + (rb ? "ok" : "throws"));
+        else if (a != b) log.fail("witness.tranz-data-global", "TRANZ 4*5 gives " + std::to_string(a[0]) + ", EQUALS TRANZ 5 gives " + std::to_string(b[0]));
+        else log.ok();
+        stats["witness.tranz-data-global"]++;
     }
 }
 
